@@ -470,6 +470,10 @@ func joinViews(ctx context.Context, scope *ReferenceScope, view *View, joinView 
 
 		for i := range includeFields {
 			idx, _ := view.Header.SearchIndex(includeFields[i])
+			if includeIndices.Exists(uint(idx)) {
+				// the name is listed twice: the column is merged once
+				continue
+			}
 			includeIndices.Add(uint(idx))
 
 			eidx, _ := view.Header.SearchIndex(excludeFields[i])
